@@ -51,6 +51,8 @@ type Run struct {
 	kf         *KnownFindings
 	distinct   map[string]bool
 	vacuous    []string
+	// Scratch runs (replays) neither write evidence nor replay files.
+	Scratch bool
 }
 
 // Vacuous records that a class the check must exercise was never exercised.
@@ -188,6 +190,10 @@ func (r *Run) Report(signature, what string, replay map[string]any) {
 	replay["what"] = what
 	replay["seed"] = Seed()
 	b, _ := json.MarshalIndent(replay, "", " ")
+	if r.Scratch {
+		r.violations = append(r.violations, Violation{Signature: signature, What: what, Replay: replay})
+		return
+	}
 	d := sha256.Sum256(append([]byte(r.Property+"|"+signature+"|"), b...))
 	dir := filepath.Join(Root, "replays")
 	_ = os.MkdirAll(dir, 0o755)
@@ -256,6 +262,19 @@ func (r *Run) Finish() int {
 	}
 	if r.Assume == nil {
 		evd["assumptions"] = []string{}
+	}
+	if r.Scratch {
+		for _, v := range r.violations {
+			fmt.Printf("REPRODUCED property=%s\n  signature: %s\n  what: %s\n", r.Property, v.Signature, v.What)
+		}
+		for _, k := range r.known {
+			fmt.Printf("REPRODUCED (known finding) property=%s %s\n", r.Property, k)
+		}
+		if len(r.violations)+len(r.known) == 0 {
+			fmt.Println("not reproduced: the recorded case behaves as the property demands on this tree")
+			return 0
+		}
+		return 1
 	}
 	b, _ := json.MarshalIndent(evd, "", " ")
 	dir := filepath.Join(Root, "evidence")
